@@ -25,6 +25,9 @@ INFO = {
  "S-C09-2": ("C09", "Gene.get_functional memoized in a module-level dict keyed by (gene name, position, op) without the database identity", "two same-named databases in one process that label a shared variant differently", "missed at first (the variant menu had consistent labels); caught after an unlabelled twin of a labelled variant was added to the table menu"),
  "S-C11-2": ("C11", "get_major_name resolves the placeholder index -1 by list indexing (wraps to the last copy) instead of the explicit test", "exactly one called copy in a gene with a whole-gene-deletion allele", "caught as written"),
  "S-C15-2": ("C15", "Coverage.quality_filter caches pass/fail per (profile name, quality pair), ignoring the thresholds", "two filterings in one process with the same profile name, different thresholds, and reads whose quality lies between them", "missed at first (every low-quality pair sat just below its own threshold); caught after qualities between the two threshold settings were added in both roles"),
+ "S-C08-2": ("C08", "minus-strand del..ins.. position shifted by the inserted instead of the deleted length", "a minus-strand gene with a deletion-insertion whose parts differ in length (CYP2A6 only among the shipped ones)", "caught as written"),
+ "S-C18-2": ("C18", "Profile.load lets the options section of the profile file overwrite the user's parameters", "the same parameter both in the loaded profile's options section and given by the user", "missed at first; caught after the 'override' states (file says one value, user gives another) were added to C18"),
+ "S-C19-2": ("C19", "the average-depth guard compares with min_coverage instead of min_avg_coverage", "min_avg_coverage configured away from min_coverage and a depth between the two", "missed at first; caught after states with min_avg_coverage=10 at 3x and 40x were added to C19"),
  "S-C01-2": ("C01", "the generated N-padded reference for indel realignment is cached per process keyed by (contig name, length)", "two genotyping calls in one process for different genes on the same contig, the second sample carrying a catalogued indel", "caught as written (worker processes evaluate several generated databases on contig 7)"),
  "S-C03-2": ("C03", "estimate_cn checks the no-copy-number fallback before the user-supplied structure", "a user-supplied list other than 1,1 for a gene without structural alleles or with the exome profile", "missed at first; caught after user lists on genes without copy-number calling (CYP2C19, G6PD, toy in exome mode) were added to C03"),
  "S-C06-2": ("C06", "Sample.__init__ takes the multi-substitution table from a module-level cache keyed by gene name", "two Samples of same-named genes with different MNV sites in one process, the later one with reads showing a complete MNV", "caught as written (file states of both builds share worker processes)"),
